@@ -365,12 +365,14 @@ TEXT["C16"] = {
              "finished exchange, with one PUBCOMP; every acknowledgement step of a broker-publish exchange is relayed. (Liveness) "
              "C16_qos1_delivered_within_the_retry_budget: in the composed system a broker QoS 1 message on a subscribed short topic "
              "is delivered and acknowledged to the broker under ANY pattern of lost PUBLISHes / PUBACKs of at most RetryCount rounds "
-             "(exact traces; the bound is sharp); C16_qos2_completes_exactly_once_with_one_loss: a QoS 2 message with one lost "
-             "datagram at any of the four positions completes on both sides with the handler run exactly once; "
+             "(exact traces; the bound is sharp); C16_qos2_survives_any_loss_pattern: a QoS 2 message completes on both sides, the "
+             "handler run EXACTLY once and the broker receiving exactly PUBREC then PUBCOMP, under ANY pattern of at most RetryCount "
+             "failed rounds in each of the two phases (PUBLISH/PUBREC, PUBREL/PUBCOMP; a round loses the gateway's datagram or the "
+             "client's answer); C16_qos2_completes_exactly_once_with_one_loss (the four single-loss positions, exact traces); "
              "C16_register_step_survives_a_lost_regack (+ the other loss positions in ComposeLoss2.v); "
              "C16_sleep_survives_a_lost_disconnect_reply (a lost reply to the sleep DISCONNECT does not split the session). Arbitrary QoS 2 loss "
              "patterns and duplication are checked by the end-to-end monitor on "
              "the real client + real gateway joined by a lossy link, against the composed model.",
-    "note": COMMON_NOTE + " Partial: liveness is proved for QoS 1 on short topics under any loss pattern within the budget, for QoS 2 and the REGISTER step with one lost datagram; longer QoS 2 loss patterns and duplication are tested (generated fault lists within and beyond the budget), not proved.",
+    "note": COMMON_NOTE + " Partial: liveness is proved for QoS 1 and QoS 2 on short topics under any loss pattern within the budget, for the REGISTER step with one lost datagram; duplication and losses in the REGISTER step beyond one are tested (generated fault lists within and beyond the budget), not proved.",
     "technique": "Coq step lemmas on the retry timer (gateway) and PUBREL handling (client) + end-to-end differential execution over a lossy link with a liveness monitor",
 }
